@@ -779,6 +779,36 @@ func (c *CR) Apply(l Label) bool {
 			x.Status.LastScheduled = latest
 			return x
 		})
+	case "JobStart", "JobFinish": // the queue / job controllers' writes: K = job name
+		jk := strings.SplitN(cKeyReal(l.K), "/", 2)
+		o := w.API.Get("jobs", jk[0], jk[1])
+		if o == nil {
+			return false
+		}
+		j := o.(*execution.Job)
+		if l.A == "JobStart" && !j.Status.StartTime.IsZero() || l.A == "JobFinish" && (j.Status.StartTime.IsZero() || j.Status.Phase.IsTerminal()) {
+			return false
+		}
+		if l.A == "JobStart" {
+			// as the queue controller does: reserve the slot in the store, then write the start time
+			if ref := metav1.GetControllerOf(j); ref != nil {
+				if jo := sw.CacheGet(w.Inf.JobConfigs, j.Namespace+"/"+ref.Name); jo != nil {
+					jcfg := jo.(*execution.JobConfig)
+					c.store.CheckAndAdd(jcfg, c.store.CountActiveJobsForConfig(jcfg))
+				}
+			}
+		}
+		w.API.Mutate("jobs", jk[0], jk[1], func(o runtime.Object) runtime.Object {
+			x := o.(*execution.Job)
+			if l.A == "JobStart" {
+				t := metav1.NewTime(w.Clk.Now())
+				x.Status.StartTime = &t
+				x.Status.Phase = execution.JobRunning
+			} else {
+				x.Status.Phase = execution.JobSucceeded
+			}
+			return x
+		})
 	case "JobGone": // a Job finishes and is cleaned up (TTL): K = job name
 		jk := strings.SplitN(cKeyReal(l.K), "/", 2)
 		if w.API.Get("jobs", jk[0], jk[1]) == nil {
@@ -1064,6 +1094,10 @@ func CronMain(args []string) (interface{}, error) {
 				}
 				if rng.Intn(6) == 0 {
 					add(Label{A: "StatusSync", C: jci}, 2)
+				}
+				if jobs := w.API.List("jobs"); len(jobs) > 0 && rng.Intn(4) == 0 {
+					gj := jobs[rng.Intn(len(jobs))].(*execution.Job)
+					add(Label{A: []string{"JobStart", "JobStart", "JobFinish"}[rng.Intn(3)], K: cKeyID(gj.Namespace + "/" + gj.Name)}, 2)
 				}
 				if jobs := w.API.List("jobs"); len(jobs) > 0 && rng.Intn(10) == 0 {
 					gj := jobs[rng.Intn(len(jobs))].(*execution.Job)
